@@ -327,6 +327,9 @@ let check_case (c : case) : unit =
        if not (x_check_expand j real) && not wide && not (blockwise_perm j real (x_spec_load j)) then begin
          let spec = x_spec_load j in
          let (a, b) = diff_str real spec in report_hit c "C13.expand" a b;
+         (* the layout the mapper is GIVEN is not the layout the file says: the mapper properties that a user states in
+            terms of the layout file listen to this clause *)
+         report_hit c "LAYOUT.expansion" a b;
          (* C08 starts from the layout the mapper is GIVEN: an `absorbing` list that the conversion loses or changes
             (same triggers and outputs, other absorbed keys) makes the modifier count for every following keystroke *)
          (match real, spec with
